@@ -2,6 +2,7 @@ import Drivers.Proto
 -- one import line per driver (union-merged)
 import Drivers.Tables
 import Drivers.Containers
+import Drivers.Geom
 
 /-! `refdrv <driver> [args]` : dispatch to a line-protocol driver. One match arm per driver, on one line. -/
 
@@ -9,6 +10,7 @@ def main (args : List String) : IO UInt32 := do
   match args with
   | "tables" :: rest => Drivers.Tables.run rest
   | "containers" :: rest => Drivers.Containers.run rest
+  | "geom" :: rest => Drivers.Geom.run rest
   | _ =>
     IO.eprintln s!"refdrv: unknown driver {args}"
     return 2
